@@ -495,6 +495,7 @@ func (n *NSQD) GetTopic(topicName string) *Topic {
 		return t
 	}
 
+	verifPoint("gettopic:after-miss")
 	n.Lock()
 
 	t, ok = n.topicMap[topicName]
